@@ -20,7 +20,7 @@ T = {
  'C04-container-merge-skips-val-index': dict(prop='C04', change='ContainerEnv::insert_owned no longer re-files the surviving container in val_index when a rebuilt container collides and the incoming id wins',
    needs='a collision of two containers after a union with the rebuilt one holding the smaller id, then a second union displacing an element of the survivor handled by incremental container rebuild (> 1000 containers, or the container_incremental_rebuild knob)',
    caught={'C04': 'non-canonical-id', 'C14': 'invariant (non-canonical id in a container)'}, missed=['C04 before strengthening'],
-   strengthened='C04 drew the rebuild knobs only in its threaded sub-batch (1 case in 10); now half of the serial cases draw them too'),
+   strengthened='C04 drew the rebuild knobs only in its threaded sub-batch (1 case in 10); now half of the serial cases draw them, container histories get unions among container elements and the container knob forced in half of them (caught at VERIF_SEED 1, 20260923 and 7)'),
  'C05-staged-merge-args-swapped': dict(prop='C05', change='StagedOutputs::insert passes (new, old) to the merge function',
    needs='parallel insert path, two writes to one key in one round, the later one dominating',
    caught={'C05': 'outcome-differs-from-model', 'C06': 'outcome-mismatch', 'C16': 'scan-mismatch'}, missed=[], strengthened=None),
